@@ -1,3 +1,3 @@
 SPECIFICATION Spec
-INVARIANTS Recombine InRange Plain
+INVARIANTS Recombine InRange Plain SplitSame
 CHECK_DEADLOCK FALSE
